@@ -43,6 +43,9 @@ pub struct SchedReader<'a> {
 	pub faults_fired: usize,
 	/// largest position ever handed out
 	pub high_water: usize,
+	/// read-call budget: beyond it every read fails and `over_budget` is set (no-progress detector)
+	pub budget: usize,
+	pub over_budget: bool,
 }
 
 impl<'a> SchedReader<'a> {
@@ -66,6 +69,8 @@ impl<'a> SchedReader<'a> {
 			pending_interrupts: 0,
 			faults_fired: 0,
 			high_water: 0,
+			budget: 16 * data.len() + 4096,
+			over_budget: false,
 		}
 	}
 }
@@ -81,6 +86,10 @@ impl<'a> Read for SchedReader<'a> {
 		}
 		let k = self.reads;
 		self.reads += 1;
+		if self.reads > self.budget {
+			self.over_budget = true;
+			return Err(io::Error::new(io::ErrorKind::Other, "read-call budget exceeded (no progress)"));
+		}
 		if self.fail_read_at == Some(k) {
 			self.faults_fired += 1;
 			return Err(io::Error::new(io::ErrorKind::Other, "injected read fault"));
